@@ -47,7 +47,7 @@ InitState(h) ==
    ncb |-> 0, cbRaised |-> FALSE, cbX |-> <<>>,
    nit |-> 0, resol |-> NaN, nEnh |-> 0, done |-> FALSE,
    lastXin |-> <<>>, lastOut0 |-> NaN, conX |-> [j \in 1..h.ncon |-> <<>>],
-   initX |-> <<>>, initOut |-> <<>>]
+   initX |-> <<>>, initOut |-> <<>>, iterSites |-> <<>>]
 
 StopStatus(r) == CASE r = "target" -> 1 [] r = "feasible" -> 4 [] r = "callback" -> 3
 
@@ -56,7 +56,8 @@ Step(h, st, ev) ==
   CASE ev.e = "EB" ->
          [st EXCEPT !.win = [NoWin EXCEPT !.open = TRUE, !.site = ev.site,
                                           !.ncon = [j \in 1..h.ncon |-> 0]],
-                    !.lastXin = ev.xin]
+                    !.lastXin = ev.xin,
+                    !.iterSites = IF ev.site \in {"TR", "SOC", "GEO"} THEN Append(@, ev.site) ELSE @]
     [] ev.e = "Obj" ->
          IF st.win.open
          THEN [st EXCEPT !.win.nobj = @ + 1, !.win.pts = @ \cup {ev.x}]
@@ -100,7 +101,7 @@ Step(h, st, ev) ==
                          !.lastOut0 = IF Len(ev.out) > 0 THEN ev.out[1] ELSE NaN,
                          !.initX = IF ev.site = "INIT" THEN Append(@, st.lastXin) ELSE @,
                          !.initOut = IF ev.site = "INIT" /\ Len(ev.out) > 0 THEN Append(@, ev.out[1]) ELSE @]
-    [] ev.e = "It" -> [st EXCEPT !.nit = @ + 1,
+    [] ev.e = "It" -> [st EXCEPT !.nit = @ + 1, !.iterSites = <<>>,
                                  !.resol = IF "resol" \in DOMAIN ev THEN ev.resol ELSE @]
     [] ev.e = "Init" -> [st EXCEPT !.resol = ev.resol]
     [] ev.e = "Enh" -> [st EXCEPT !.nEnh = @ + 1, !.resol = ev.ra]
@@ -113,11 +114,24 @@ Sel(c, name) == IF c THEN {} ELSE {name}
 
 EvalIds(h, st) == IF h.fsize = 0 THEN 1..st.nev ELSE SeqRange(st.flt)
 
+\* Conformance diagnostics (prefix "D."): the recorded run deviates from the implementation-shaped
+\* model in a way that no listed property forbids.  They are counted, never alarmed on.
+\* Shape of an iteration: at most one trust-region evaluation, then at most one second-order
+\* correction, then at most one geometry evaluation; sampling evaluations only before the loop.
+FlowOK(st, site) ==
+  CASE site = "INIT"   -> st.nit = 0
+    [] site = "TR"     -> st.nit > 0 /\ st.iterSites = <<>>
+    [] site = "SOC"    -> st.iterSites = <<"TR">>
+    [] site = "GEO"    -> st.nit > 0 /\ st.iterSites \in {<<>>, <<"TR">>, <<"TR", "SOC">>}
+    [] site = "RESULT" -> st.nev = 0
+    [] OTHER -> FALSE
+
 FailEB(h, st, ev) ==
      Sel(~(h.consistent /\ ev.bfeas) \/ InBox(ev.xin, ev.loW, ev.hiW), "C01.trial." \o ev.site)
 \cup Sel(st.stop = {}, "C09.evalafter")
 \cup Sel(~st.win.open, "C06.nested")
 \cup Sel(~st.done, "C08.afterend")
+\cup Sel(FlowOK(st, ev.site), "D.flow." \o ev.site)
 
 FailObj(h, st, ev) ==
      Sel(ev.inwin /\ st.win.open, "C06.objoutside")
@@ -198,6 +212,12 @@ FailTR(h, st, ev) ==
             Sel(/\ Len(ev.pts) = Len(st.initX) /\ Len(ev.fvals) = Len(st.initOut)
                 /\ \A k \in DOMAIN ev.pts : SamePoint(ev.pts[k], st.initX[k]) /\ ev.fvals[k] = st.initOut[k],
                 "C12.initial")
+    [] ev.e = "Views" ->   \* value / gradient / Hessian / product / curvature belong to one quadratic
+            Sel(\A m \in DOMAIN ev.err : Le(ev.err[m], ev.tol[m]), "C13.views")
+    [] ev.e = "ShiftInv" -> \* a shift of the expansion point does not change the function
+            Sel(ev.skip \/ \A m \in DOMAIN ev.err : Le(ev.err[m], ev.tol[m]), "C13.shiftinv")
+    [] ev.e = "Dets" ->    \* one-index and all-indices determinant ratios agree
+            Sel(ev.skip \/ Le(ev.rel, ev.tol), "C14.agree")
     [] ev.e = "Geo" -> Sel(ev.k # ev.best, "C18.replace")
     [] ev.e = "Interp" ->
             Sel(ev.illskip \/ \A m \in DOMAIN ev.resid : Le(ev.resid[m], ev.tol[m]),
